@@ -5,53 +5,88 @@ vs Drive/C08 (values and memo contents), (b) forced schedules of the per-equatio
 (sys.settrace cooperative scheduler, one switch point per source line of Model.memoize) vs the interleaving
 machine; reference checks on the real code: stale = differs from a freshly built model; ambiguous = two values
 handed out for one (element, time) in one run."""
-import itertools, json, random as _pyrandom, sys, threading
+import importlib.util, itertools, json, os, random as _pyrandom, re, sys, threading
 from common import *
 
 START, DT, KMAX = 1.0, 0.5, 3           # grid t_k = 1.0 + 0.5 k (exact in binary)
 LITS = [2.0, 3.0, 0.5, 1.5, 4.0, 0.25, 10.0]
 OPSYM = {0: "+", 1: "-", 2: "*", 3: "/"}
 LEANKIND = {"s": "s", "f": "f", "o": "o", "c": "o", "b": "o"}
+# graphical functions (`model.points`): x ascending; table i is the default content of points["p<i>"] for i < NTAB
+TABLES = [[[0.0, 0.0], [2.0, 4.0], [6.0, 5.0]], [[0.0, 10.0], [1.0, 0.0]],
+          [[-4.0, -1.0], [0.0, 0.0], [8.0, 2.0], [16.0, 2.0]], [[1.0, 1.0], [3.0, 9.0]], [[0.0, 3.0], [5.0, 3.5], [7.0, -2.0]]]
+NTAB = 2
+VEC_DEFAULTS = [1.0, 2.0, 0.5, 3.0, 0.25, 4.0]
 
 
 # ------------------------------------------------------------------ expressions
-# ('L', x) | ('R', n) | ('B', op, a, b) | ('X',)          (left operand of B is never a literal)
+# ('L', x) | ('R', n) | ('B', op, a, b) | ('X',) | ('K', p, e) = lookup(e, "p<p>")     (left operand of B is never a literal)
+# vector templates (wave 2): ('V', g) = the arrayed element whose first member has flat id g
 def enc(e):
     if e[0] == "L": return "L" + fbits(e[1])
     if e[0] == "R": return "R%d" % e[1]
     if e[0] == "X": return "X"
+    if e[0] == "K": return "K%d,%s" % (e[1], enc(e[2]))
     return "B%d,%s,%s" % (e[1], enc(e[2]), enc(e[3]))
 
 
 def show(e):
     if e[0] == "L": return repr(e[1])
     if e[0] == "R": return "e%d" % e[1]
+    if e[0] == "V": return "v%d" % e[1]
     if e[0] == "X": return "random()"
+    if e[0] == "K": return "lookup(%s, 'p%d')" % (show(e[2]), e[1])
     return "(%s %s %s)" % (show(e[2]), OPSYM[e[1]], show(e[3]))
 
 
-def dsl(e, els):
+def dsl(e, els, vecs=None):
     """the SD-DSL object a modeller would write"""
     from BPTK_Py import sd_functions as sd
     if e[0] == "L": return e[1]
     if e[0] == "R": return els[e[1]]
+    if e[0] == "V": return vecs[e[1]]
     if e[0] == "X": return sd.random(0, 1)
-    a, b = dsl(e[2], els), dsl(e[3], els)
+    if e[0] == "K": return sd.lookup(dsl(e[2], els, vecs), "p%d" % e[1])
+    a, b = dsl(e[2], els, vecs), dsl(e[3], els, vecs)
     return a + b if e[1] == 0 else a - b if e[1] == 1 else a * b if e[1] == 2 else a / b
 
 
-def raw(e):
+def raw(e, names=None):
     """python source for model.add_equation (fully parenthesised, own renderer)"""
     if e[0] == "L": return repr(e[1])
-    if e[0] == "R": return "model.memoize('e%d',t)" % e[1]
+    if e[0] == "R": return "model.memoize('%s',t)" % (names[e[1]] if names and e[1] < len(names) else "e%d" % e[1])
     if e[0] == "X": return "random.uniform(0,1)"
-    return "((%s) %s (%s))" % (raw(e[2]), OPSYM[e[1]], raw(e[3]))
+    if e[0] == "K": return "model._lookup(%s,'p%d')" % (raw(e[2], names), e[1])
+    return "((%s) %s (%s))" % (raw(e[2], names), OPSYM[e[1]], raw(e[3], names))
 
 
 def refs(e):
     if e[0] == "R": return {e[1]}
     if e[0] == "B": return refs(e[2]) | refs(e[3])
+    if e[0] == "K": return refs(e[2])
     return set()
+
+
+def inst(e, i):
+    """member i of a vector template: ('V', g) -> ('R', g+i)"""
+    if e[0] == "V": return ("R", e[1] + i)
+    if e[0] == "B": return ("B", e[1], inst(e[2], i), inst(e[3], i))
+    if e[0] == "K": return ("K", e[1], inst(e[2], i))
+    return e
+
+
+def group_of(kinds, n):
+    """(first flat id, size) of the vector flat id n belongs to, or None.  kinds entries: 'o' | 'o:3' (member of the
+    vector whose first member has flat id 3)."""
+    k = kinds[n]
+    if ":" not in k:
+        return None
+    g = int(k.split(":")[1])
+    return g, sum(1 for x in kinds if x.endswith(":%d" % g))
+
+
+def tab_hex(ti):
+    return ",".join("%s:%s" % (fbits(x), fbits(y)) for x, y in TABLES[ti])
 
 
 # ------------------------------------------------------------------ real side
@@ -62,17 +97,53 @@ class Real:
         self.kinds = kinds
         self.m = Model(starttime=START, stoptime=START + KMAX * DT, dt=DT, name="c08")
         mk = {"s": self.m.stock, "f": self.m.flow, "o": self.m.converter, "c": self.m.constant, "b": self.m.biflow}
-        self.els = [mk[k]("e%d" % i) for i, k in enumerate(kinds)]
+        self.els, self.names, self.vecs, self.setup = [], [], {}, []
+        for n, k in enumerate(kinds):
+            grp = group_of(kinds, n)
+            if grp is None:
+                self.els.append(mk[k]("e%d" % n)); self.names.append("e%d" % n)
+                continue
+            g, size = grp
+            if n == g:          # arrayed element: the DSL creates one model element per member, named v<g>[i]
+                par = mk[k[0]]("v%d" % g)
+                defaults = [VEC_DEFAULTS[(g + i) % len(VEC_DEFAULTS)] for i in range(size)]
+                par.setup_vector(size, defaults)
+                self.vecs[g] = par
+                for i in range(size):
+                    self.setup.append(("setinit" if k[0] == "s" else "seteq", g + i, ("L", defaults[i])))
+            self.els.append(self.vecs[g][n - g]); self.names.append("v%d[%d]" % (g, n - g))
+        self.ids = {nm: i for i, nm in enumerate(self.names)}
+        for p in range(NTAB):
+            self.m.points["p%d" % p] = [list(x) for x in TABLES[p]]
         self.sc = SimulationScenario({}, "sc", self.m, "sm")
+
+    def new_lines(self):
+        """protocol lines that bring the Lean model to the state of the freshly constructed real model"""
+        return (["new %s %s" % (fbits(DT), ",".join(LEANKIND[k[0]] for k in self.kinds))] +
+                ["setpoints %d %s" % (p, tab_hex(p)) for p in range(NTAB)] + [op_line(o) for o in self.setup])
+
+    def name(self, n):
+        return self.names[n] if n < len(self.names) else "e%d" % n
 
     def apply(self, op):
         k = op[0]
         if k == "seteq":
             self.els[op[1]].equation = dsl(op[2], self.els)
+        elif k == "arrset":       # v[i] = expr  (ArrayedEquation.__setitem__)
+            g, _ = group_of(self.kinds, op[1])
+            self.vecs[g][op[1] - g] = dsl(op[2], self.els)
+        elif k == "veceq":        # v.equation = <expression over arrayed elements>: one equation per member
+            self.vecs[op[1]].equation = dsl(op[2], self.els, self.vecs)
         elif k == "setinit":
             self.els[op[1]].initial_value = dsl(op[2], self.els)
         elif k == "addeq":
-            self.m.add_equation("e%d" % op[1], eval("lambda t: " + raw(op[2]), {"model": self.m, "random": _pyrandom}))
+            self.m.add_equation(self.name(op[1]), eval("lambda t: " + raw(op[2], self.names), {"model": self.m, "random": _pyrandom}))
+        elif k == "setpoints":    # plain dictionary write: no cache reset
+            self.m.points["p%d" % op[1]] = [list(x) for x in TABLES[op[2]]]
+        elif k == "scpoints":     # the scenario route: settings -> setup_points -> reset of the scenario cache
+            self.sc.configure_settings({"points": {"p%d" % op[1]: [list(x) for x in TABLES[op[2]]]}})
+            self.sc.setup_points()
+            self.sc.reset_cache()
         elif k == "reset":
             self.m.reset_cache()
         elif k == "sreset":
@@ -83,7 +154,7 @@ class Real:
 
     def value(self, n, k):
         try:
-            v = self.m.evaluate_equation("e%d" % n, START + k * DT)
+            v = self.m.evaluate_equation(self.name(n), START + k * DT)
             return "nan" if v != v else fbits(v)
         except RecursionError:
             return "none"
@@ -93,21 +164,57 @@ class Real:
     def memo(self):
         out = []
         for name, d in self.m.memo.items():
+            if name in self.ids:
+                n = self.ids[name]
+            elif re.fullmatch(r"e\d+", name):
+                n = int(name[1:])
+            else:
+                continue              # the parent entry of an arrayed element holds no values
             for t, v in d.items():
-                out.append((int(name[1:]), int(round((t - START) / DT)), "nan" if v != v else fbits(v)))
+                out.append((n, int(round((t - START) / DT)), "nan" if v != v else fbits(v)))
         return ",".join("%d.%d=%s" % x for x in sorted(out))
 
 
 def op_line(op):
     k = op[0]
     if k in ("seteq", "setinit", "addeq"): return "%s %d %s" % (k, op[1], enc(op[2]))
+    if k == "arrset": return "seteq %d %s" % (op[1], enc(op[2]))
+    if k == "setpoints": return "setpoints %d %s" % (op[1], tab_hex(op[2]))
     if k in ("reset", "sreset"): return "reset"
     return "eval %d %d" % (op[1], op[2])
+
+
+def op_lines(op, kinds):
+    """the model-level operations one API call amounts to"""
+    if op[0] == "veceq":
+        return ["seteq %d %s" % (op[1] + i, enc(inst(op[2], i))) for i in range(group_of(kinds, op[1])[1])]
+    if op[0] == "scpoints":
+        return ["setpoints %d %s" % (op[1], tab_hex(op[2])), "reset"]
+    return [op_line(op)]
+
+
+EDITS = ("seteq", "setinit", "addeq", "arrset", "veceq", "setpoints", "scpoints")
+
+
+def settled(ops):
+    """Lean `settled`: no evaluation (the final reads included) between a raw points write and the next operation
+    that empties the memo."""
+    d = False
+    for o in ops:
+        if o[0] == "setpoints": d = True
+        elif o[0] == "eval":
+            if d: return False
+        else: d = False
+    return not d
 
 
 def op_show(op):
     k = op[0]
     if k == "seteq": return "e%d.equation = %s" % (op[1], show(op[2]))
+    if k == "arrset": return "v[..] (flat id %d) = %s" % (op[1], show(op[2]))
+    if k == "veceq": return "v%d.equation = %s" % (op[1], show(op[2]))
+    if k == "setpoints": return "model.points['p%d'] = %s" % (op[1], TABLES[op[2]])
+    if k == "scpoints": return "scenario points p%d = %s; setup_points(); reset_cache()" % (op[1], TABLES[op[2]])
     if k == "setinit": return "e%d.initial_value = %s" % (op[1], show(op[2]))
     if k == "addeq": return "model.add_equation('e%d', lambda t: %s)" % (op[1], show(op[2]))
     if k == "reset": return "model.reset_cache()"
@@ -116,7 +223,8 @@ def op_show(op):
 
 
 EDIT_KEY = {"setinit": "stale-initial-value", "addeq": "stale-add-equation", "seteq": "stale-equation-setter",
-            "reset": "stale-after-reset", "sreset": "stale-after-reset"}
+            "arrset": "stale-equation-setter", "veceq": "stale-equation-setter", "setpoints": "stale-points-after-reset",
+            "scpoints": "stale-scenario-points", "reset": "stale-after-reset", "sreset": "stale-after-reset"}
 
 
 def stale_check(kinds, ops, nall):
@@ -127,7 +235,7 @@ def stale_check(kinds, ops, nall):
         a.apply(op)
     b = Real(kinds)
     for op in ops:
-        if op[0] in ("seteq", "setinit", "addeq"):
+        if op[0] in EDITS:
             b.apply(op)
     for n in range(nall):
         for k in range(KMAX + 1):
@@ -189,13 +297,21 @@ def gen_lean(f):
     b = lambda x: "true" if x else "false"
     cfg = (f"def cfg : Cfg := {{ initialValueResetsCache := {b(f['init'])}, addEquationResetsCache := {b(f['add'])}, "
            f"memoizeFirstStoreWins := {b(f['first'])} }}\n")
-    if all(f.values()):
+    if f["init"] and f["add"] and f["first"]:
         body = "theorem holds : C08_full cfg := C08_full_of_good cfg (by decide)\n#print axioms holds\n"
     else:
         thm = ("C08_witness_stale_init_full" if not f["init"] else
                "C08_witness_stale_add_full" if not f["add"] else "C08_witness_race_full")
         body = (f"theorem violated : ¬ C08_full cfg := {thm} cfg (by decide)\n#print axioms violated\n"
                 "#print axioms C08_partial_evals\n#print axioms C08_deterministic_threads\n")
+    # the `memoize` of XMILE-generated model classes (no edit API: only the store rule is a fact of its own)
+    body += (f"def cfgX : Cfg := {{ initialValueResetsCache := true, addEquationResetsCache := true, "
+             f"memoizeFirstStoreWins := {b(f['xfirst'])} }}\n")
+    if f["xfirst"]:
+        body += "theorem holdsX : C08_conc cfgX := C08_stochastic_threads cfgX (by decide)\n#print axioms holdsX\n"
+    else:
+        body += ("theorem violatedX : ¬ C08_conc cfgX := C08_witness_race cfgX (by decide)\n#print axioms violatedX\n"
+                 "#print axioms C08_deterministic_threads\n")
     return ("import Bptk.Props.C08\n/-! GENERATED by harness/props/c08.py from the code under test on every run — do not edit. -/\n"
             "namespace Bptk.C08.Gen\n" + cfg + body + "end Bptk.C08.Gen\n")
 
@@ -207,8 +323,10 @@ def gen_expr(rng, allowed, depth=2):
         return ("L", rng.choice(LITS))
     def atom(): return ("R", rng.choice(allowed))
     def term():
-        r = rng.below(4)
+        r = rng.below(5)
         a = atom()
+        if r == 4:                # graphical function of an element / of a scaled element (table looked up by name)
+            return ("K", rng.below(NTAB), a if rng.chance(1, 2) else ("B", 2, a, ("L", rng.choice(LITS))))
         if r == 0: return a
         if r == 1: return ("B", 2, a, atom())
         if r == 2: return ("B", 2, a, ("L", rng.choice(LITS)))
@@ -229,7 +347,9 @@ def allowed_refs(kinds, n):
 
 def gen_edit(rng, kinds, extra):
     n = rng.below(len(kinds))
-    r = rng.below(10)
+    r = rng.below(12)
+    if r >= 10:
+        return ("scpoints" if rng.chance(1, 2) else "setpoints", rng.below(NTAB), rng.below(len(TABLES)))
     if r < 2 and "s" in kinds:
         s = rng.choice([i for i, k in enumerate(kinds) if k == "s"])
         consts = [i for i, k in enumerate(kinds) if k == "c"]
@@ -266,7 +386,78 @@ def gen_history(rng):
             e = gen_edit(rng, kinds, extra)
             added = added or (e[0] == "addeq" and e[1] >= nk)
             ops.append(e)
+            if e[0] == "setpoints" and rng.chance(3, 4):      # usually settled at once; sometimes left pending
+                ops.append(rng.choice([("reset",), ("sreset",)]))
     return kinds, ops, nk + (extra if added else 0)
+
+
+# ---- wave 2 families -------------------------------------------------------------------------------------------
+INIT_KINDS = ["c", "f", "s", "o", "c", "o"]     # + e4 = 7.0 (second constant), e5 = e4*0.5 (converter not depending on the stock)
+INIT_PREFIX = [("seteq", 0, ("L", 2.0)), ("seteq", 1, ("B", 2, ("R", 0), ("L", 1.5))), ("seteq", 2, ("R", 1)),
+               ("seteq", 3, ("B", 1, ("B", 2, ("R", 2), ("L", 2.0)), ("R", 0))), ("seteq", 4, ("L", 7.0)),
+               ("seteq", 5, ("B", 2, ("R", 4), ("L", 0.5)))]
+INIT_VALUES = [("L", 1.0), ("L", 1.0), ("L", 10.0), ("R", 0), ("R", 4), ("R", 5)]     # float (twice: same value), float, constant, constant, converter
+
+
+def init_transition_cases():
+    """every (old kind -> new kind) transition of a stock's initial value — float->same float, float->float,
+    float->element, element->float, element->same element, element->other element (constant and converter) —
+    with reads of the dependents before, between and after (the final reads of every element are added by run_seq)."""
+    out = []
+    for old in INIT_VALUES:
+        for new in INIT_VALUES:
+            for mid in ([], [("eval", 3, 2)], [("eval", 3, 2), ("eval", 2, 0), ("eval", 5, 1)]):
+                for tail in ([], [("eval", 3, 2), ("setinit", 2, old), ("eval", 3, 1)]):
+                    out.append((INIT_KINDS, INIT_PREFIX + [("setinit", 2, old)] + mid + [("setinit", 2, new)] + tail, 6))
+    return out
+
+
+PTS_KINDS = ["c", "f", "s", "o"]
+PTS_PREFIX = [("seteq", 0, ("L", 2.0)), ("seteq", 1, ("B", 2, ("R", 0), ("L", 1.5))), ("seteq", 2, ("R", 1)),
+              ("setinit", 2, ("L", 1.0)), ("seteq", 3, ("B", 0, ("K", 0, ("R", 2)), ("R", 0)))]
+
+
+def points_alphabet():
+    return [("setpoints", 0, 1), ("setpoints", 0, 2), ("scpoints", 0, 3), ("reset",), ("sreset",), ("eval", 3, 2), ("eval", 2, 1),
+            ("seteq", 3, ("B", 2, ("K", 0, ("B", 2, ("R", 2), ("L", 0.5))), ("K", 1, ("R", 0)))), ("seteq", 0, ("L", 3.0)),
+            ("setinit", 2, ("L", 4.0))]
+
+
+ARR_KINDS = ["c", "s", "o:2", "o:2", "o:4", "o:4", "f:6", "f:6", "s:8", "s:8", "o"]
+
+
+def arr_prefix():
+    return [("seteq", 0, ("L", 2.0)), ("seteq", 1, ("R", 0)), ("setinit", 1, ("L", 1.0)),
+            ("veceq", 4, ("B", 2, ("V", 2), ("L", 3.0))), ("veceq", 8, ("V", 6)), ("seteq", 10, ("B", 0, ("R", 4), ("R", 9)))]
+
+
+def gen_arr_history(rng):
+    """arrayed elements: v2 (converter vector), v4 (converter vector), v6 (flow vector), v8 (stock vector fed by v6)"""
+    kinds = ARR_KINDS
+    ops = arr_prefix()
+    def member_expr(n):
+        al = [a for a in allowed_refs([k[0] for k in kinds], n) if a != n or kinds[n][0] == "s"]
+        return gen_expr(rng, al, depth=1)
+    for _ in range(rng.range(3, 9)):
+        r = rng.below(12)
+        if r < 5:
+            ops.append(("eval", rng.below(len(kinds)), rng.below(KMAX + 1)))
+        elif r < 6:
+            ops.append(rng.choice([("reset",), ("sreset",)]))
+        elif r < 8:
+            n = rng.choice([2, 3, 4, 5, 6, 7])
+            ops.append((rng.choice(["arrset", "seteq"]), n, member_expr(n)))
+        elif r < 9:
+            n = rng.choice([8, 9])
+            ops.append(("setinit", n, rng.choice([("L", rng.choice(LITS)), ("R", 0)])))
+        elif r < 10:
+            ops.append(("veceq", 4, rng.choice([("B", 2, ("V", 2), ("L", rng.choice(LITS))), ("B", 0, ("V", 2), ("R", 1)),
+                                                 ("B", 1, ("V", 2), ("R", 0))])))
+        elif r < 11:
+            ops.append(("veceq", 8, rng.choice([("V", 6), ("B", 2, ("V", 6), ("L", rng.choice(LITS)))])))
+        else:
+            ops.append(("veceq", 6, rng.choice([("B", 2, ("V", 2), ("L", rng.choice(LITS))), ("B", 0, ("V", 2), ("V", 4))])))
+    return kinds, ops, len(kinds)
 
 
 FIX_KINDS = ["c", "f", "s", "o"]        # c, f = max(0, c*1.5), s' = f (init 1.0 or c), k = s*2 - c
@@ -287,9 +478,16 @@ def seq_cases(chk):
     L = 3 if chk.quick else 4
     out = [(FIX_KINDS, FIX_PREFIX + list(h), 4) for h in itertools.product(fixed_alphabet(), repeat=L)]
     n_exh = len(out)
+    # wave 2: points edits (exhaustive over their own alphabet), initial-value transitions, arrayed elements
+    out += [(PTS_KINDS, PTS_PREFIX + list(h), 4) for h in itertools.product(points_alphabet(), repeat=L)]
+    out += init_transition_cases()
+    n_exh = len(out)
     rng = chk.rng.fork("c08-seq")
     for _ in range(250 if chk.quick else 4000):
         out.append(gen_history(rng))
+    rng2 = chk.rng.fork("c08-arr")
+    for _ in range(120 if chk.quick else 1500):
+        out.append(gen_arr_history(rng2))
     return out, n_exh, L
 
 
@@ -299,12 +497,15 @@ def run_seq(chk, facts):
     real = ["ok"]
     kinds_hist = {}
     stale = []
+    unsettled = {"histories": 0, "stale_seen": None}
     for kinds, ops, nall in cases:
         r = Real(kinds)
-        req.append("new %s %s" % (fbits(DT), ",".join(LEANKIND[k] for k in kinds))); real.append("ok")
+        for ln in r.new_lines():
+            req.append(ln); real.append("ok")
         for op in ops:
             v = r.apply(op)
-            req.append(op_line(op)); real.append(v if op[0] == "eval" else "ok")
+            for ln in op_lines(op, kinds):
+                req.append(ln); real.append(v if op[0] == "eval" else "ok")
             kinds_hist[op[0]] = kinds_hist.get(op[0], 0) + 1
             if op[0] == "eval":
                 req.append("memo"); real.append(r.memo())
@@ -313,14 +514,23 @@ def run_seq(chk, facts):
                 req.append("eval %d %d" % (n, k)); real.append(r.value(n, k))
         req.append("memo"); real.append(r.memo())
         edits_after_eval = any(o[0] == "eval" for o in ops) and any(
-            o[0] in ("seteq", "setinit", "addeq") for i, o in enumerate(ops) if any(p[0] == "eval" for p in ops[:i]))
-        chk.case(("seq", tuple(kinds), tuple(map(op_line, ops))), nontrivial=edits_after_eval,
+            o[0] in EDITS for i, o in enumerate(ops) if any(p[0] == "eval" for p in ops[:i]))
+        chk.case(("seq", tuple(kinds), tuple(l for o in ops for l in ([o[0]] + op_lines(o, kinds)))), nontrivial=edits_after_eval,
                  sample=[op_show(o) for o in ops] if len(chk.cov["samples"]) < 3 and len(ops) > 6 else None)
-        if len(stale) < 8:
+        if not settled(ops):
+            # outside the statement: a raw `model.points[...] = ...` (plain dict) not yet followed by a cache reset.
+            # Model and code must still agree (correspondence above); staleness here is recorded, never reported.
+            unsettled["histories"] += 1
+            if unsettled["stale_seen"] is None:
+                mm = stale_check(kinds, ops, nall)
+                if mm is not None:
+                    unsettled["stale_seen"] = {"history": [op_show(o) for o in ops], "mismatch": mm}
+        elif len(stale) < 8:
             mm = stale_check(kinds, ops, nall)
             if mm is not None:
                 stale.append((kinds, ops, nall, mm))
     chk.cov["seq_op_distribution"] = kinds_hist
+    chk.notes["points_unsettled"] = unsettled
     chk.cov["seq_exhaustive_histories"] = n_exh
     model = drive("C08", req)
     diff = next((i for i, (a, b) in enumerate(zip(model, real)) if a != b), None)
@@ -360,9 +570,10 @@ class Sched:
     runs next.  Otherwise the running thread continues; when it ends, the lowest unfinished thread runs."""
     TIMEOUT = 20.0
 
-    def __init__(self, names, preempt, memoize_code, simulate_name="__simulate"):
+    def __init__(self, names, preempt, memoize_code, simulate_name="__simulate", argname="normalized_arg"):
         self.names, self.preempt = names, dict(preempt)
         self.code, self.simname = memoize_code, simulate_name
+        self.argname = argname          # local of `memoize` that holds the normalised time (DSL Model / generated class)
         self.cv = threading.Condition()
         self.cur, self.count = 0, 0
         self.finished, self.tids, self.taken = set(), {}, set()
@@ -436,13 +647,13 @@ class Sched:
             st.pop()
             loc = frame.f_locals
             try:
-                key = (int(loc["equation"][1:]), int(round((loc["normalized_arg"] - START) / DT)))
+                key = (int(loc["equation"][1:]), int(round((loc[self.argname] - START) / DT)))
             except Exception:
                 key = None
             cons = None
             if st:
                 l2 = st[-1].f_locals
-                cons = (int(l2["equation"][1:]), int(round((l2["normalized_arg"] - START) / DT)))
+                cons = (int(l2["equation"][1:]), int(round((l2[self.argname] - START) / DT)))
             self.handouts.append((t, cons, key, None if arg is None else fbits(arg)))
         return self.memo_trace
 
@@ -496,6 +707,152 @@ def run_forced(system, preempt):
             memo[(int(nm[1:]), int(round((t - START) / DT)))] = fbits(v)
     return {"events": sch.events, "handouts": sch.handouts, "reported": reported, "memo": memo,
             "line_events": sch.count, "error": sch.error}
+
+
+# ------------------------------------------------------------------ (b') XMILE-generated model classes
+def x_expr(e):
+    if e[0] == "L": return repr(e[1])
+    if e[0] == "R": return "e%d" % e[1]
+    if e[0] == "X": return "RANDOM(0, 1)"
+    return "(%s %s %s)" % (x_expr(e[2]), OPSYM[e[1]], x_expr(e[3]))
+
+
+def xmile_doc(elems, start, stop, dt, name="c08x"):
+    """elems: ('aux', expr) | ('flow', expr) | ('stock', init expr, inflow id)"""
+    from xml.sax.saxutils import escape
+    v = []
+    for i, el in enumerate(elems):
+        if el[0] == "stock":
+            v.append('\t\t\t<stock name="e%d">\n\t\t\t\t<eqn>%s</eqn>\n\t\t\t\t<inflow>e%d</inflow>\n\t\t\t</stock>\n'
+                     % (i, escape(x_expr(el[1])), el[2]))
+        else:
+            v.append('\t\t\t<%s name="e%d">\n\t\t\t\t<eqn>%s</eqn>\n\t\t\t</%s>\n' % (el[0], i, escape(x_expr(el[1])), el[0]))
+    return ('<?xml version="1.0" encoding="utf-8"?>\n'
+            '<xmile version="1.0" xmlns="http://docs.oasis-open.org/xmile/ns/XMILE/v1.0" xmlns:isee="http://iseesystems.com/XMILE">\n'
+            '\t<header>\n\t\t<smile version="1.0" namespace="std, isee"/>\n\t\t<name>%s</name>\n\t\t<vendor>verif</vendor>\n'
+            '\t\t<product version="1.0" lang="en">verif</product>\n\t</header>\n'
+            '\t<sim_specs method="Euler" time_units="Months">\n\t\t<start>%s</start>\n\t\t<stop>%s</stop>\n\t\t<dt>%s</dt>\n\t</sim_specs>\n'
+            '\t<model>\n\t\t<variables>\n' % (name, start, stop, dt) + "".join(v) + '\t\t</variables>\n\t</model>\n</xmile>\n')
+
+
+_xmods = {}
+
+
+def xmile_module(key, elems, start, stop, dt, scratch):
+    """transpile with the real compiler, import the generated module (cached per run)"""
+    if key in _xmods:
+        return _xmods[key]
+    from BPTK_Py.sdcompiler.compile import compile_xmile
+    import contextlib, io, warnings
+    base = os.path.join(scratch, "c08x_%s" % key)
+    with open(base + ".stmx", "w") as f:
+        f.write(xmile_doc(elems, start, stop, dt))
+    with warnings.catch_warnings(), contextlib.redirect_stdout(io.StringIO()):
+        warnings.simplefilter("ignore")
+        compile_xmile(base + ".stmx", base + ".py", "py")
+        spec = importlib.util.spec_from_file_location("c08x_%s" % key, base + ".py")
+        mod = importlib.util.module_from_spec(spec)
+        spec.loader.exec_module(mod)
+    _xmods[key] = mod
+    return mod
+
+
+def xmile_systems():
+    """(name, XMILE elements, Lean kinds, Lean definitions, requested equations, k0, k1): the generated lambdas have the
+    shapes of the DSL ones (aux/flow: the expression; stock: init if t <= start else memoize(s,t-dt) + dt*(memoize(inflow,t-dt)))"""
+    X = ("X",)
+    return [
+        ("xrace2", [("aux", X)], ["o"], [("seteq", 0, X)], [0, 0], 0, 0),
+        ("xdep2", [("aux", X), ("aux", ("B", 2, ("R", 0), ("L", 2.0)))], ["o", "o"],
+         [("seteq", 0, X), ("seteq", 1, ("B", 2, ("R", 0), ("L", 2.0)))], [1, 0], 0, 0),
+        ("xdiamond2", [("aux", X), ("aux", ("B", 0, ("R", 0), X)), ("aux", ("B", 1, ("R", 1), ("R", 0)))], ["o", "o", "o"],
+         [("seteq", 0, X), ("seteq", 1, ("B", 0, ("R", 0), X)), ("seteq", 2, ("B", 1, ("R", 1), ("R", 0)))], [2, 1], 0, 0),
+        ("xstock2", [("aux", X), ("stock", ("L", 1.0), 3), ("aux", ("B", 0, ("R", 1), ("R", 0))), ("flow", ("R", 0))],
+         ["o", "s", "o", "o"],
+         [("seteq", 0, X), ("seteq", 3, ("R", 0)), ("seteq", 1, ("R", 3)), ("setinit", 1, ("L", 1.0)),
+          ("seteq", 2, ("B", 0, ("R", 1), ("R", 0)))], [2, 1], 0, 1),
+        ("xdet2", [("aux", ("L", 3.0)), ("aux", ("B", 2, ("R", 0), ("L", 2.0))), ("aux", ("B", 0, ("R", 1), ("R", 0)))], ["o", "o", "o"],
+         [("seteq", 0, ("L", 3.0)), ("seteq", 1, ("B", 2, ("R", 0), ("L", 2.0))), ("seteq", 2, ("B", 0, ("R", 1), ("R", 0)))],
+         [2, 1], 0, 0),
+        ("xthree", [("aux", X), ("aux", ("B", 2, ("R", 0), ("L", 2.0))), ("aux", ("B", 0, ("R", 0), ("R", 1)))], ["o", "o", "o"],
+         [("seteq", 0, X), ("seteq", 1, ("B", 2, ("R", 0), ("L", 2.0))), ("seteq", 2, ("B", 0, ("R", 0), ("R", 1)))], [2, 1, 0], 0, 0),
+    ]
+
+
+def x_instance(xsys, scratch):
+    name, elems = xsys[0], xsys[1]
+    mod = xmile_module(name, elems, repr(START), repr(START + KMAX * DT), repr(DT), scratch)
+    return mod.simulation_model()
+
+
+def run_forced_x(xsys, preempt, scratch):
+    """one run of SdSimulation.start on a freshly instantiated XMILE-generated class under a forced schedule
+    (switch point = every new source line of the generated `memoize`)."""
+    import random as rmod
+    from BPTK_Py.sdsimulation import SdSimulation
+    name, elems, lkinds, ldefs, reqs, k0, k1 = xsys
+    sim = x_instance(xsys, scratch)
+    names = ["e%d" % n for n in reqs]
+    sch = Sched(names, preempt, type(sim).memoize.__code__, argname="arg")
+    for nm in list(sim.memo.keys()):
+        sim.memo[nm] = RecDict(sch, int(nm[1:]))
+    old_random = rmod.random
+    rmod.random = lambda: sch.uniform(0, 1)
+    threading.settrace(sch.gtrace)
+    try:
+        simu = SdSimulation(model=sim, name="c08x")
+        simu.start(output=["frame"], start=START + k0 * DT, until=START + k1 * DT, equations=names)
+    finally:
+        threading.settrace(None)
+        rmod.random = old_random
+    reported = {}
+    for eq, d in simu.results.items():
+        for t, v in d.items():
+            reported[(int(eq[1:]), int(round((t - START) / DT)))] = fbits(v)
+    memo = {}
+    for nm, d in sim.memo.items():
+        for t, v in dict.items(d):
+            memo[(int(nm[1:]), int(round((t - START) / DT)))] = fbits(v)
+    return {"events": sch.events, "handouts": sch.handouts, "reported": reported, "memo": memo,
+            "line_events": sch.count, "error": sch.error}
+
+
+def probe_first_store_x(scratch):
+    """the generated `memoize`, single-threaded emulation of two overlapping misses of one stochastic key (see probe_first_store)."""
+    sim = x_instance(xmile_systems()[0], scratch)
+    state = {"n": 0, "inner": None}
+    def fn(t):
+        state["n"] += 1
+        mine = float(state["n"])
+        if state["n"] == 1:
+            state["inner"] = sim.memoize("e0", t)
+        return mine
+    sim.equations["e0"] = fn
+    outer = sim.memoize("e0", START)
+    return outer == state["inner"] == sim.memo["e0"][START]
+
+
+NORM_ELEMS = [("aux", ("X",)), ("stock", ("L", 1.0), 2), ("flow", ("R", 0))]
+
+
+def xmile_normalisation(scratch):
+    """generated `memoize` on a grid that is not exact in binary (start 0.3, dt 0.1): a stochastic element asked for at
+    the same grid point through different arithmetic routes must be computed ONCE (one key, one value), and the keys a
+    stock's t-dt recursion leaves behind are the decimal grid values.  Returns None or a description of what failed."""
+    mod = xmile_module("norm", NORM_ELEMS, "0.3", "1.3", "0.1", scratch)
+    sim = mod.simulation_model()
+    routes = {"0.4-0.1": 0.4 - 0.1, "0.3": 0.3, "0.1+0.2": 0.1 + 0.2, "0.5-0.1-0.1": 0.5 - 0.1 - 0.1}
+    vals = {r: sim.memoize("e0", t) for r, t in routes.items()}
+    if len({fbits(v) for v in vals.values()}) != 1 or list(sim.memo["e0"].keys()) != [0.3]:
+        return {"what": "RANDOM aux e0 at grid point 0.3 by four routes", "values": {r: repr(v) for r, v in vals.items()},
+                "memo_keys": [repr(t) for t in sim.memo["e0"].keys()]}
+    sim = mod.simulation_model()
+    a = sim.memoize("e1", 0.3 + 0.1 + 0.1 + 0.1)
+    keys = sorted(sim.memo["e1"].keys())
+    b = sim.memoize("e1", 0.6)
+    if fbits(a) != fbits(b) or keys != [0.3, 0.4, 0.5, 0.6] or sorted(sim.memo["e1"].keys()) != keys:
+        return {"what": "stock e1 at 0.3+0.1+0.1+0.1 then at 0.6", "values": [repr(a), repr(b)], "memo_keys": [repr(t) for t in keys]}
+    return None
 
 
 def ambiguity(obs):
@@ -553,23 +910,36 @@ def schedules_for(chk, system, E, nthreads, rng):
     return [{}] + one + two + three, full2
 
 
-def run_conc(chk, facts):
-    rng = chk.rng.fork("c08-conc")
+def run_conc(chk, facts, scratch=None):
+    """scratch = None: the SD-DSL `Model.memoize`; else: the `memoize` of XMILE-generated classes (same scheduler, same
+    interleaving machine; Cfg bit `first` = what the probe of that memoize found)."""
+    xm = scratch is not None
+    rng = chk.rng.fork("c08-conc-x" if xm else "c08-conc")
     req, exp, meta = [], [], []
     first_amb, n_runs, dist = None, 0, {}
     infra = None
-    for system in conc_systems():
-        name, kinds, defs, reqs, k0, k1 = system
-        base = run_forced(system, {})
+    for sysm in (xmile_systems() if xm else conc_systems()):
+        if xm:
+            name, _, kinds, defs, reqs, k0, k1 = sysm
+            system = (name, kinds, defs, reqs, k0, k1)
+            forced = lambda pre, sysm=sysm: run_forced_x(sysm, pre, scratch)
+        else:
+            system = sysm
+            name, kinds, defs, reqs, k0, k1 = system
+            forced = lambda pre, system=system: run_forced(system, pre)
+        base = forced({})
         E = base["line_events"]
         scheds, full2 = schedules_for(chk, system, E, len(reqs), rng)
+        if xm and chk.quick:          # the generated memoize has about twice as many lines: thin the 2-pre-emption sample
+            scheds = scheds[:1 + E * len(reqs)] + scheds[1 + E * len(reqs)::3]
+            full2 = False
         dist[name] = {"line_events": E, "schedules": len(scheds), "all_two_preemptions": full2}
-        header = ["cfg %d %d %d" % (facts["init"], facts["add"], facts["first"]),
-                  "new %s %s" % (fbits(DT), ",".join(LEANKIND[k] for k in kinds))] + [op_line(o) for o in defs]
+        header = (["cfg %d %d %d" % (facts["init"], facts["add"], facts["xfirst" if xm else "first"])] + Real(kinds).new_lines() +
+                  [op_line(o) for o in defs])
         req += header; exp += ["ok"] * len(header); meta += [None] * len(header)
         seen = set()
         for pre in scheds:
-            obs = run_forced(system, pre)
+            obs = forced(pre)
             n_runs += 1
             if obs["error"]:
                 infra = obs["error"]; break
@@ -590,8 +960,8 @@ def run_conc(chk, facts):
         dist[name]["distinct_memo_access_orders"] = len(seen)
         if infra:
             break
-    chk.cov["conc_distribution"] = dist
-    chk.cov["forced_schedule_runs"] = n_runs
+    chk.cov["conc_distribution_xmile" if xm else "conc_distribution"] = dist
+    chk.cov["forced_schedule_runs"] = chk.cov.get("forced_schedule_runs", 0) + n_runs
     if infra:
         raise RuntimeError("forced-schedule infrastructure: " + infra)
     model = drive("C08", req)
@@ -609,9 +979,19 @@ def run_conc(chk, facts):
 
 # ------------------------------------------------------------------ the check
 def run(chk):
+    import shutil
+    scratch = scratch_dir("c08x")
+    try:
+        _run(chk, scratch)
+    finally:
+        shutil.rmtree(scratch, ignore_errors=True)
+
+
+def _run(chk, scratch):
     quiet_bptk_logging()
     sys.setrecursionlimit(5000)
-    facts = {"init": probe_initial_value(), "add": probe_add_equation(), "first": probe_first_store()}
+    facts = {"init": probe_initial_value(), "add": probe_add_equation(), "first": probe_first_store(),
+             "xfirst": probe_first_store_x(scratch)}
     chk.notes["cfg"] = facts
     ok, why = chk.prove(gen_lean(facts))
     chk.cov["trusted_base"] = [
@@ -628,6 +1008,8 @@ def run(chk):
                        "edits are not concurrent with a run"]
     cases, stale, sdiff, sreq, smodel, sreal, L = run_seq(chk, facts)
     amb, cdiff, creq, cmodel, cexp, cmeta = run_conc(chk, facts)
+    xamb, xdiff, xreq, xmodel, xexp, xmeta = run_conc(chk, facts, scratch)
+    xnorm = xmile_normalisation(scratch)
     chk.cov["rule"] = (f"(a) all histories FIX_PREFIX + w, w in alphabet^{L} (13 edit/reset/evaluate operations on a 4-element model), plus seeded random "
                        "histories on random models of 3..6 elements: every evaluation result and the memo contents after every evaluation are compared "
                        "with the Lean model, and every element at every grid point with a freshly built model; non-trivial = some edit follows an evaluation. "
@@ -637,6 +1019,7 @@ def run(chk):
     # ---- decide
     chk.notes["seq_correspondence_first_diff"] = sdiff
     chk.notes["conc_correspondence_first_diff"] = cdiff
+    chk.notes["xmile_conc_correspondence_first_diff"] = xdiff
     for kinds, ops, nall, mm in stale:
         small = shrink(ops, lambda c: stale_check(kinds, c, nall) is not None)
         mm = stale_check(kinds, small, nall)
@@ -664,6 +1047,25 @@ def run(chk):
     elif not facts["first"]:
         chk.add_finding("memoize-race-stochastic", "probe: a second miss of one stochastic key while the first is being computed returns a different value",
                         {"kind": "schedule", "system": "race2", "preempt": {"3": 1}})
+    if xamb is not None:
+        xs, pre, a = xamb
+        chk.add_finding("memoize-race-stochastic-xmile",
+                        f"XMILE-generated class, system {xs[0]} ({[op_show(o) for o in xs[2]]}), workers for {['e%d' % n for n in xs[3]]}, "
+                        f"pre-emptions (line event of the generated memoize -> thread) {pre}: {a}",
+                        {"kind": "xschedule", "system": xs[0], "preempt": {str(k): v for k, v in pre.items()}, "observed": a})
+    elif not facts["xfirst"]:
+        chk.add_finding("memoize-race-stochastic-xmile", "probe: in the generated memoize a second miss of one stochastic key while the first "
+                        "is being computed returns a different value (check-compute-store with plain assignment)",
+                        {"kind": "xschedule", "system": "xrace2", "preempt": {"6": 1}})
+    if xnorm is not None:
+        chk.add_finding("xmile-memo-key-not-normalised", f"generated memoize, start 0.3 dt 0.1: {xnorm}",
+                        {"kind": "xnorm", "observed": xnorm})
+    if xdiff is not None and xamb is None:
+        chk.add_finding("correspondence", f"model and implementation disagree (forced schedule, XMILE-generated class) at protocol line {xdiff}: {xmeta[xdiff] if xdiff < len(xmeta) else None}",
+                        {"correspondence": "Drive/C08 conc vs SdSimulation worker threads on an XMILE-generated class", "line": xdiff,
+                         "case": xmeta[xdiff] if xdiff < len(xmeta) else None, "request": xreq[xdiff] if xdiff < len(xreq) else None,
+                         "model": xmodel[xdiff] if xdiff < len(xmodel) else None, "impl": xexp[xdiff] if xdiff < len(xexp) else None},
+                        found_input=False)
     if not ok:
         chk.add_finding("obligation", f"proof obligations of C08 no longer check: {why}",
                         {"theorem": "Bptk.C08.Gen.holds / Bptk.Props.C08", "detail": why}, found_input=False)
@@ -706,5 +1108,26 @@ def replay(path):
         if not bad:
             print("no ambiguity under the stored schedule (nor under the 12 single pre-emptions tried)")
         return 1 if bad else 0
+    if r.get("kind") in ("xschedule", "xnorm"):
+        import shutil
+        scratch = scratch_dir("c08x")
+        try:
+            if r["kind"] == "xnorm":
+                bad = xmile_normalisation(scratch)
+                print("generated memoize on the grid start 0.3, dt 0.1:", bad or "keys normalised, one value per grid point")
+                return 1 if bad else 0
+            xs = next(x for x in xmile_systems() if x[0] == r["system"])
+            pre = {int(k): v for k, v in r["preempt"].items()}
+            bad = None
+            for pp in [pre] + [{i: 1} for i in range(30)]:
+                bad = ambiguity(run_forced_x(xs, pp, scratch))
+                if bad:
+                    print("XMILE-generated class, system", xs[0], "pre-emptions", pp, "->", bad)
+                    break
+            if not bad:
+                print("no ambiguity under the stored schedule (nor under the 30 single pre-emptions tried)")
+            return 1 if bad else 0
+        finally:
+            shutil.rmtree(scratch, ignore_errors=True)
     print("replay names a proof obligation / correspondence stream:", r)
     return 1
